@@ -155,7 +155,11 @@ class Runner:
 
     def run(self):
         h = self.h
-        ctl = daemon.Controller(self.tree, self.work, conc=tuple(h.get("conc", (10, 20))), announce=tuple(h.get("announce", (120, 120))), policy=self.policy)
+        chooser = None
+        if h.get("random_sched"):
+            crng = random.Random(h.get("seed", 0) + 17)
+            chooser = lambda wanting: crng.choice(wanting)
+        ctl = daemon.Controller(self.tree, self.work, conc=tuple(h.get("conc", (10, 20))), announce=tuple(h.get("announce", (120, 120))), policy=self.policy, chooser=chooser)
         self.ctl = ctl
         ctl.lifetime = h.get("lifetime", 604800)
         sandbox.clear_queue(self.tree.root)
@@ -175,6 +179,48 @@ class Runner:
                     po = ctl.inject(m["body"], m["sender"], m["rcpts"])
                     ctl.run()
                     self.after_step()
+                elif op == "inject_many":
+                    # several injectors at once: their system calls interleave with the daemon's under the (random) chooser
+                    for mi in act[1]:
+                        m = h["messages"][mi]
+                        ctl.inject(m["body"], m["sender"], m["rcpts"])
+                    ctl.run()
+                    self.after_step()
+                elif op == "inject_kill":
+                    # an injector that dies before its k-th intercepted call: leaves a stale entry behind
+                    m = h["messages"][act[1]]
+                    ctl.expect_noticed = 0
+                    ctl.inject(m["body"], m["sender"], m["rcpts"], env_extra={"VERIF_KILL": str(act[2])})
+                    ctl.run()
+                elif op == "second_daemon":
+                    import subprocess
+                    tr = os.path.join(self.work, "second.trace")
+                    if os.path.exists(tr):
+                        os.unlink(tr)
+                    e2 = sandbox.shim_env(self.tree, ids=ctl.ids, trace=tr, role="second", clock=ctl.clockfile)
+                    r, w = os.pipe()
+                    os.write(w, bytes([120, 120]))
+                    dn = os.open("/dev/null", os.O_RDWR)
+
+                    def pre():
+                        for fd in (0, 1, 3, 5, 6):
+                            os.dup2(dn, fd)
+                        os.dup2(r, 2)
+                        os.dup2(r, 4)
+                    pp = subprocess.Popen([self.tree.bin("qmail-send")], env=e2, preexec_fn=pre, close_fds=False)
+                    try:
+                        rc2 = pp.wait(timeout=4)
+                    except subprocess.TimeoutExpired:
+                        pp.kill()
+                        pp.wait()
+                        rc2 = -1           # it did not refuse: it was still running against the same queue
+
+                    class _P:
+                        returncode = rc2
+                    p2 = _P()
+                    os.close(r); os.close(w); os.close(dn)
+                    muts = [x for x in sandbox.read_trace(tr) if x["c"] in ("unlink", "link", "rename", "write") and x.get("res", -1) >= 0 and "/queue/" in (x.get("path") or x.get("obj") or "")]
+                    ctl.emit({"c": "ctl", "op": "second", "status": p2.returncode, "mutations": len(muts)})
                 elif op == "answer":
                     self.answer_all(order=act[1] if len(act) > 1 else "fifo")
                 elif op == "advance":
@@ -230,7 +276,12 @@ class Runner:
             trace = ctl.trace
             ctl.stop()
         ev, T = qsproj.project(trace, ctl.qdir, dbto=h.get("dbto", b"postmaster@test.example"), pfx=h.get("pfx", b""))
-        return {"ev": ev, "left": len(left), "addr": {v: k.decode("latin1") for k, v in T.addr.items()}, "nraw": len(trace)}
+        out = {"ev": ev, "left": len(left), "addr": {v: k.decode("latin1") for k, v in T.addr.items()}, "nraw": len(trace)}
+        if h.get("keep_fs"):
+            import qqrun
+            out["fs"] = qqrun.fs_events(trace, ctl.qdir)
+            out["second"] = [e for e in trace if e.get("c") == "ctl" and e.get("op") == "second"]
+        return out
 
     def _clean_restart(self):
         ctl = self.ctl
